@@ -11,7 +11,9 @@ use crate::data_types::w3c::credential_attributes::CredentialAttributeValue;
 use crate::data_types::w3c::presentation::W3CPresentation;
 use crate::data_types::w3c::proof::CredentialPresentationProofValue;
 use crate::error::Result;
-use crate::services::helpers::{encode_credential_attribute, get_requested_non_revoked_interval};
+use crate::services::helpers::{
+    attr_common_view, encode_credential_attribute, get_requested_non_revoked_interval,
+};
 use crate::types::{PresentationRequest, RevocationRegistryDefinition, RevocationStatusList};
 use crate::utils::query::Query;
 use crate::verifier::{gather_filter_info, process_operator};
@@ -57,6 +59,9 @@ pub fn verify_presentation(
         nonrevoke_interval_override,
         &credential_proofs,
     )?;
+
+    // Ensures that every value exposed by a credential is backed by its proof
+    check_credential_subjects(presentation, &credential_proofs)?;
 
     let presentation_proof = presentation.get_presentation_proof()?;
 
@@ -316,6 +321,40 @@ fn check_requested_predicate<'a>(
         "Presentation does not contain predicate {}",
         predicate.name
     ))
+}
+
+fn check_credential_subjects(
+    presentation: &W3CPresentation,
+    credential_proofs: &[CredentialPresentationProofValue],
+) -> Result<()> {
+    for (credential, proof) in presentation
+        .verifiable_credential
+        .iter()
+        .zip(credential_proofs)
+    {
+        let predicates = proof.sub_proof.predicates();
+        for (attribute, value) in credential.credential_subject.0.iter() {
+            match value {
+                CredentialAttributeValue::String(_) | CredentialAttributeValue::Number(_) => {
+                    let encoded = encode_credential_attribute(&value.to_string())?;
+                    verify_revealed_attribute_value(attribute, &proof.sub_proof, &encoded)?;
+                }
+                CredentialAttributeValue::Bool(_) => {
+                    let proven = predicates.iter().any(|predicate| {
+                        attr_common_view(&predicate.attr_name) == attr_common_view(attribute)
+                    });
+                    if !proven {
+                        return Err(err_msg!(
+                            ProofRejected,
+                            "Predicate for attribute \"{}\" not found in CryptoProof",
+                            attribute
+                        ));
+                    }
+                }
+            }
+        }
+    }
+    Ok(())
 }
 
 fn check_request_data(
